@@ -187,6 +187,12 @@ type Verdict struct {
 	// broken, so success is still forbidden (no status is asserted).
 	CertainFail bool
 
+	// UnicodeFoldUpgrade: some Upgrade line carries a value that is not
+	// "websocket" in any letter case but equals it under Unicode simple case
+	// folding (U+017F LONG S for s, U+212A KELVIN SIGN for k). This is the
+	// predicate of finding C09/upgrade-value-unicode-fold.
+	UnicodeFoldUpgrade bool
+
 	// Keys are the values of all Sec-WebSocket-Key lines of length 24; on any
 	// success the accept value must belong to one of them.
 	Keys []string
@@ -249,14 +255,12 @@ func classifyValue(h HeaderID, v string) valueClass {
 		if asciiEqualFold(v, "websocket") {
 			return vGood
 		}
-		for i := 0; i < len(v); i++ {
-			// non-ASCII bytes: whether Unicode case folding counts as
-			// "case-insensitively" is not settled by the statement;
-			// lists: the statement says "Upgrade: websocket".
-			if v[i] >= 0x80 || v[i] == ',' {
-				return vOpen
-			}
+		// lists: the statement says "Upgrade: websocket", RFC 7230 allows a list
+		if strings.IndexByte(v, ',') >= 0 {
+			return vOpen
 		}
+		// anything else is not the websocket token, including values that
+		// only match under Unicode folding (see UnicodeFoldUpgrade)
 		return vBad
 	case HConnection:
 		if v == "" {
@@ -304,6 +308,12 @@ func isHandshakeName(n string) bool {
 		}
 	}
 	return asciiEqualFold(n, NameProtocol) || asciiEqualFold(n, NameExtensions)
+}
+
+// IsUnicodeFoldOnly reports whether v differs from token in more than ASCII
+// letter case and yet equals it under Unicode simple case folding.
+func IsUnicodeFoldOnly(v, token string) bool {
+	return !asciiEqualFold(v, token) && strings.EqualFold(v, token)
 }
 
 // Classify is the acceptance model of property C09.
@@ -385,6 +395,9 @@ func Classify(r *Request, c *Config) Verdict {
 				copies[h] = append(copies[h], classifyValue(h, val))
 				if h == HKey && len(val) == 24 {
 					v.Keys = append(v.Keys, val)
+				}
+				if h == HUpgrade && IsUnicodeFoldOnly(val, "websocket") {
+					v.UnicodeFoldUpgrade = true
 				}
 				known = true
 			}
